@@ -789,3 +789,13 @@ Theorem C03_glue2_rs_matches_model :
   (forall dbg w a b, Glue.I_rem dbg w a b = I_rem dbg w a b).
 Proof. exact glue_div2_matches_model. Qed.
 Print Assumptions C03_glue2_rs_matches_model.
+(* ---- checked_next_multiple_of of /repo/src/buint/checked.rs, regenerated on every run, computes exactly the model's
+   U_checked_next_multiple_of (`rem.is_zero()` is the translated loop; checked_rem, the inherent sub and checked_add are
+   calls of the model's functions; a panic of `rhs.sub(rem)` - impossible, rem < rhs - would be Panicked). ---- *)
+From Bnum.Proofs Require Import LoopsTieC03b.
+Theorem C03_loops2_rs_match_model dbg w : 0 < w ->
+  forall n a b fuel, wf w n a -> wf w n b -> (n <= fuel)%nat ->
+  Loops.checked_next_multiple_of dbg w (Z.of_nat n) fuel a b =
+  match U_checked_next_multiple_of dbg w a b with Ret o => Done o | Panic => Panicked end.
+Proof. exact (loops_C03b_match_model dbg w). Qed.
+Print Assumptions C03_loops2_rs_match_model.
